@@ -137,7 +137,7 @@ def _validate():
 
 def obligations(tier):
     obs = [
-        make("C20.eq.same.3n2f3", (3, 1, 3), (3, 1, 3)),
+        make("C20.eq.same.3n1f3", (3, 1, 3), (3, 1, 3)),
         make("C20.eq.same.4n2f4", (4, 2, 4), (4, 2, 4), cost=3),
         make("C20.eq.shared_ds", (4, 2, 4), (4, 2, 4), shared=True),
         make("C20.eq.more_nodes", (4, 2, 3), (5, 2, 3)),
